@@ -266,6 +266,12 @@ def replay_decoder(defn, payload, obname):
                 allin = False
         elif f.type in ('LOOKUP', 'RESERVED', 'SPARE', 'BITLOOKUP', 'INDIRECT_LOOKUP'):
             ev = ('bits', (payload >> off) & ((1 << L) - 1), None)
+        elif f.type == 'BINARY' and L is None and f.length_field:
+            # a variable-length BINARY field whose length field is 'not available' / not an integer is not well-formed:
+            # the decoder may reject it (the contract of the decode function says the same: in_range = length is present)
+            lf = [x for x in expvals if x[0].order == f.length_field]
+            if not lf or lf[0][1] is None or lf[0][1][1] is None or Fraction(lf[0][1][1]).denominator != 1:
+                allin = False
         expvals.append((f, ev, off))
         if f.type == 'STRING_LAU':
             t = payload >> off
@@ -434,6 +440,9 @@ def main(tier):
     for L in range(1, 65):
         for kind, ok in (('int', 'zero'), ('float', 'zero'), ('int', 'int'), ('float', 'int'), ('float', 'float')):
             run.add(SpecTask(DecodeNumber(L, kind, ok)))
+    from contracts.helpers_c import decode_helper_tasks
+    for t in decode_helper_tasks('C01'):
+        run.add(t)
     run.add(LemmaTask('C01:tables', table_lemmas))
     kinds = sorted(numeric_kinds().items(), key=lambda kv: str(kv[0]))
     for ch in chunks(kinds, 32):
@@ -449,7 +458,7 @@ def main(tier):
               'float model S (standard model, u=2^-53) for the scaling lemma; z3 FloatingPoint (binary64, RNE) for the range-test lemma',
               'spec compiler spec/canboat.py (written from the canboat schema; excess-K reading of Offset as in canboat)',
               'z3 5.1 / cvc5 1.0.3 / z3 4.8.12')
-    run.assume('helper contracts used as assumptions at call sites (bodies only bounded-checked): decode_string_fix/lz/lau, decode_date, decode_time, decode_bit_lookup, decode_float (struct), int_to_bytes',
+    run.assume('helpers: decode_time, decode_date, decode_float, decode_decimal bodies are proved against day-number / h-m-s / IEEE-single contracts (contracts/helpers_c.py; datetime and struct through dependency contracts); decode_string_fix/lz/lau and decode_bit_lookup bodies are only bounded-checked against references (labelled bounded)',
                'payload integer is non-negative (int.from_bytes of the data bytes)',
                'static name resolution in nmea2000.pgns (last definition wins; no monkey-patching)',
                'permissive readings: where the database range contains the all-ones code both None and the number are accepted; malformed STRING_LAU length bytes (<2) are not constrained')
